@@ -282,3 +282,87 @@ Qed.
 Lemma witness_derive : exists d, derive_all [("A"%byte, bs "A"%bs); ("T"%byte, bs "T"%bs); ("W"%byte, bs "AT"%bs); ("X"%byte, bs "TA"%bs)]
     [("A"%byte, "T"%byte); ("T"%byte, "A"%byte)] = Some d /\ lookupB "W"%byte d = Some "X"%byte.
 Proof. eexists. split; vm_compute; reflexivity. Qed.
+
+(* ---------------- rc position by position ---------------- *)
+Lemma nth_error_rev {A} (l : list A) i : i < length l -> nth_error (rev l) i = nth_error l (length l - 1 - i).
+Proof.
+  intros H. destruct l as [|d l']; [simpl in H; lia|]. set (l := d :: l') in *.
+  rewrite (nth_error_nth' (rev l) d) by (rewrite rev_length; exact H).
+  rewrite (nth_error_nth' l d) by lia.
+  rewrite rev_nth by exact H. f_equal. f_equal. lia.
+Qed.
+Lemma rc_positionwise s i : i < length s ->
+  nth_error (rc s) i = option_map (cc (has cU s)) (nth_error s (length s - 1 - i)).
+Proof.
+  intros H. destruct (rc_defs s) as [_ E]. rewrite E. rewrite nth_error_rev by (rewrite complement_length; exact H).
+  rewrite complement_length. apply complement_every_string.
+Qed.
+
+(* ---------------- complement and concatenation / slices: only the flag matters ---------------- *)
+Lemma has_app c a b : has c (a ++ b) = has c a || has c b.
+Proof. unfold has. apply existsb_app. Qed.
+Lemma complement_app a b :
+  complement (a ++ b) = map (cc (has cU a || has cU b)) a ++ map (cc (has cU a || has cU b)) b.
+Proof. rewrite complement_as_map, has_app, map_app. reflexivity. Qed.
+Lemma complement_app_same a b : has cU a = has cU b -> complement (a ++ b) = complement a ++ complement b.
+Proof.
+  intros H. rewrite complement_app, !complement_as_map. rewrite H. destruct (has cU b); reflexivity.
+Qed.
+(* a U-free piece next to a piece with U is complemented as RNA: the pieces do not commute with complement unless the U-free
+   piece has none of the two symbols (A, U) on which the two maps differ *)
+Lemma cc_differ c : byte_eqb (cc true c) (cc false c) = negb (byte_eqb c cA || byte_eqb c cU).
+Proof. bytes c. Qed.
+
+(* ---------------- closed alphabets ---------------- *)
+Definition in_rna (c : byte) : bool := has c alphabet_rna.
+Lemma cc_rna_closed c : in_rna c = true -> in_rna (cc true c) = true.
+Proof. bytes c. Qed.
+Lemma closed_alphabets s :
+  (forallb in_alpha s = true -> forallb in_alpha (complement s) = true /\ forallb in_alpha (rc s) = true) /\
+  (forallb in_rna s = true -> has cU s = true -> forallb in_rna (complement s) = true /\ forallb in_rna (rc s) = true).
+Proof.
+  split.
+  - intros H. split; [apply complement_alpha; exact H|]. unfold rc, reverse. apply complement_alpha, rev_alpha, H.
+  - intros H U.
+    assert (C : forall x, forallb in_rna x = true -> has cU x = true -> forallb in_rna (complement x) = true).
+    { intros x Hx Ux. rewrite complement_as_map, Ux. rewrite forallb_forall in *. intros y Hy. apply in_map_iff in Hy.
+      destruct Hy as (z & E & Hz). subst. apply cc_rna_closed. auto. }
+    split; [apply C; assumption|]. unfold rc, reverse. apply C; [|rewrite has_rev; exact U].
+    rewrite forallb_forall in *. intros x Hx. apply H. apply in_rev. exact Hx.
+Qed.
+
+Lemma map_cc_eq b : has cU b = false -> (map (cc true) b = map (cc false) b <-> has cA b = false).
+Proof.
+  unfold has. induction b as [|x b IH]; cbn [map existsb]; [tauto|].
+  intros H. apply orb_false_elim in H. destruct H as [Hx Hb]. specialize (IH Hb).
+  pose proof (cc_differ x) as D. split.
+  - intros E.
+    assert (D2 : byte_eqb (cc true x) (cc false x) = true) by (apply byte_eqb_eq; injection E; auto).
+    assert (E2 : map (cc true) b = map (cc false) b) by (injection E; auto).
+    rewrite D in D2.
+    apply orb_false_intro; [|apply IH; exact E2].
+    destruct (byte_eqb cA x) eqn:A; [|reflexivity]. apply byte_eqb_eq in A. subst x. discriminate D2.
+  - intros E. apply orb_false_elim in E. destruct E as [Ex Eb]. f_equal; [|apply IH; exact Eb].
+    apply byte_eqb_eq. rewrite D. clear -Hx Ex. revert Hx Ex. bytes x.
+Qed.
+
+Lemma complement_app_iff a b :
+  complement (a ++ b) = complement a ++ complement b <->
+  (has cU a = has cU b \/ (has cU a = true /\ has cA b = false) \/ (has cU b = true /\ has cA a = false)).
+Proof.
+  rewrite complement_app, !complement_as_map.
+  destruct (has cU a) eqn:Ua, (has cU b) eqn:Ub; cbn [orb].
+  - split; [left; reflexivity|reflexivity].
+  - split.
+    + intros E. apply app_inv_head in E. right. left. split; [reflexivity|]. apply map_cc_eq; assumption.
+    + intros [E|[[_ E]|[E _]]]; try discriminate. f_equal. apply map_cc_eq; assumption.
+  - split.
+    + intros E. apply app_inv_tail in E. right. right. split; [reflexivity|]. apply map_cc_eq; assumption.
+    + intros [E|[[E _]|[_ E]]]; try discriminate. f_equal. apply map_cc_eq; assumption.
+  - split; [left; reflexivity|reflexivity].
+Qed.
+
+Lemma witness_app : Bstr (complement (bs "AC"%bs ++ bs "GU"%bs)) = "UGCA"%bs /\
+  Bstr (complement (bs "AC"%bs) ++ complement (bs "GU"%bs)) = "TGCA"%bs /\
+  nth_error (rc (bs "AACGU"%bs)) 1 = Some "C"%byte.
+Proof. vm_compute. repeat split; reflexivity. Qed.
